@@ -33,9 +33,12 @@ def mk(op, a, b):
 def simp(t):
     """Normal form modulo 2^32: masks to 32 bits and `% 2^32` vanish (every ring operation commutes with them; right shifts are covered by
     the width rule), `byte & 0xFF` is the byte."""
-    if not isinstance(t, tuple) or t[0] in ("const", "sym", "byte"):
+    if not isinstance(t, tuple) or t[0] in ("const", "sym", "byte", "bytes"):
         return t
     op = t[0]
+    if op == "sext":
+        n, x = t[1], simp(t[2])
+        return x if n in (0, 4) else ("sext", n, x)
     args = [simp(x) for x in t[1:]]
     if op == "and" and len(args) == 2:
         for x, y in ((args[0], args[1]), (args[1], args[0])):
@@ -46,6 +49,12 @@ def simp(t):
         return mk("and", args[0], args[1])
     if op == "mod" and args[1] == C(1 << 32):
         return args[0]
+    if op == "sext":
+        # sign extension of an n-byte little-endian value: invisible modulo 2^32 exactly when n == 4
+        n, x = t[1], simp(t[2])
+        if n == 4 or n == 0:
+            return x
+        return ("sext", n, x)
     if op in ("xor", "add", "mul", "or"):
         return mk(op, args[0], args[1])
     return (op, *args)
@@ -54,10 +63,12 @@ def simp(t):
 class SymExec:
     """Evaluates the straight-line / if fragment murmur2 is written in, on symbolic 32-bit terms."""
 
-    def __init__(self, env, pinned=None):
+    def __init__(self, env, pinned=None, tail_len=None, len_name=None):
         self.env = dict(env)
         self.pinned = dict(pinned or {})
         self.ret = None
+        self.tail_len = tail_len      # length % 4 in the phase that evaluates the tail
+        self.len_name = len_name
 
     def idx(self, e):
         """Index expression -> ('blk', k) for 4*i + k, ('tail', k) for (length & ~3) + k, else None."""
@@ -88,17 +99,32 @@ class SymExec:
                 a, b = self.lin(e.left), self.lin(e.right)
                 if a is None or b is None:
                     return None
+                out = None
                 if set(a) <= {"c"}:
-                    return {k: v * a.get("c", 0) for k, v in b.items()}
-                if set(b) <= {"c"}:
-                    return {k: v * b.get("c", 0) for k, v in a.items()}
-                return None
+                    out = {k: v * a.get("c", 0) for k, v in b.items()}
+                elif set(b) <= {"c"}:
+                    out = {k: v * b.get("c", 0) for k, v in a.items()}
+                if out is not None and out.get("n4", 0) and out["n4"] % 4 == 0:
+                    # 4 * (length // 4) is the byte offset of the tail
+                    out["tail"] = out.get("tail", 0) + out.pop("n4") // 4
+                return out
             if isinstance(e.op, ast.BitAnd):
-                # length & ~3
+                # length & ~3  : byte offset of the tail (= 4 * (length // 4))
                 l, r = unparse(e.left), unparse(e.right)
-                if {l, r} == {"length", "~3"}:
+                if {l, r} in ({self.len_name or "length", "~3"}, {self.len_name or "length", "-4"}):
                     return {"tail": 1}
                 return None
+            if isinstance(e.op, ast.Sub):
+                # length - length % 4
+                if unparse(e.left) == (self.len_name or "length") and unparse(e.right) in (f"{self.len_name or 'length'} % 4", f"{self.len_name or 'length'} & 3"):
+                    return {"tail": 1}
+                a, b = self.lin(e.left), self.lin(e.right)
+                if a is None or b is None:
+                    return None
+                out = dict(a)
+                for k, v in b.items():
+                    out[k] = out.get(k, 0) - v
+                return out
         return None
 
     def ev(self, e):
@@ -111,7 +137,7 @@ class SymExec:
             if v is None:
                 raise AnalysisError(f"murmur2: unbound name {e.id}")
             return v
-        if isinstance(e, ast.Subscript) and isinstance(e.value, ast.Name) and self.env.get(e.value.id) == S("data"):
+        if isinstance(e, ast.Subscript) and not isinstance(e.slice, ast.Slice) and isinstance(e.value, ast.Name) and self.env.get(e.value.id) == S("data"):
             l = self.lin(e.slice)
             if l is None:
                 return ("byte", "?", unparse(e.slice))
@@ -121,6 +147,8 @@ class SymExec:
             if set(l) <= {"tail", "c"} and l.get("tail", 0) == 1:
                 return byte("tail", l.get("c", 0))
             return ("byte", "?", unparse(e.slice))
+        if isinstance(e, ast.BinOp) and self.tail_len is not None and unparse(e) in (f"{self.len_name or 'length'} % 4", f"{self.len_name or 'length'} & 3"):
+            return C(self.tail_len)
         if isinstance(e, ast.BinOp):
             a, b = self.ev(e.left), self.ev(e.right)
             op = {ast.BitXor: "xor", ast.Add: "add", ast.Mult: "mul", ast.BitAnd: "and", ast.BitOr: "or", ast.LShift: "shl", ast.RShift: "shr", ast.Mod: "mod"}.get(type(e.op))
@@ -129,7 +157,50 @@ class SymExec:
             if a[0] == "const" and b[0] == "const" and op in ("shl", "xor", "and", "or", "add", "mul"):
                 pass
             return (op, a, b)
+        if isinstance(e, ast.Subscript) and isinstance(e.slice, ast.Slice) and isinstance(e.value, ast.Name) and self.env.get(e.value.id) == S("data"):
+            lo = self.lin(e.slice.lower) if e.slice.lower is not None else {"c": 0}
+            if lo is not None and e.slice.step is None:
+                lo = {k: v for k, v in lo.items() if v}
+                if e.slice.upper is not None:
+                    hi = self.lin(e.slice.upper)
+                    if hi is not None:
+                        d = {k: hi.get(k, 0) - lo.get(k, 0) for k in set(hi) | set(lo)}
+                        d = {k: v for k, v in d.items() if v}
+                        if set(d) <= {"c"}:
+                            n = d.get("c", 0)
+                            if set(lo) <= {"i", "c"} and lo.get("i", 0) == 4:
+                                return ("bytes", "blk", lo.get("c", 0), n)
+                            if set(lo) <= {"tail", "c"} and lo.get("tail", 0) == 1:
+                                return ("bytes", "tail", lo.get("c", 0), n)
+                elif set(lo) <= {"tail", "c"} and lo.get("tail", 0) == 1 and self.tail_len is not None:
+                    return ("bytes", "tail", lo.get("c", 0), max(self.tail_len - lo.get("c", 0), 0))
+            return ("call", unparse(e))
         if isinstance(e, ast.Call):
+            f = unparse(e.func)
+            if f == "int.from_bytes" and e.args:
+                src = self.ev(e.args[0])
+                order = None
+                if len(e.args) > 1 and isinstance(e.args[1], ast.Constant):
+                    order = e.args[1].value
+                signed = False
+                for k in e.keywords:
+                    if k.arg == "byteorder" and isinstance(k.value, ast.Constant):
+                        order = k.value.value
+                    if k.arg == "signed" and isinstance(k.value, ast.Constant):
+                        signed = bool(k.value.value)
+                if isinstance(src, tuple) and src[0] == "bytes" and order in ("little", "big"):
+                    _b, kind, start, n = src
+                    term = C(0)
+                    for j in range(n):
+                        sh = 8 * j if order == "little" else 8 * (n - 1 - j)
+                        bt = byte(kind, start + j)
+                        piece = bt if sh == 0 else ("shl", bt, C(sh))
+                        term = piece if term == C(0) else mk("add", term, piece)
+                    return ("sext", n, term) if signed else term
+            if f == "len" and e.args:
+                v = self.ev(e.args[0])
+                if isinstance(v, tuple) and v[0] == "bytes":
+                    return C(v[3])
             return ("call", unparse(e))
         if isinstance(e, ast.UnaryOp) and isinstance(e.op, ast.Invert):
             v = self.ev(e.operand)
@@ -169,6 +240,14 @@ class SymExec:
                         if r is not None:
                             self.run(s.body if r else s.orelse)
                             continue
+                if isinstance(t, ast.Name):
+                    lv = self.env.get(t.id)
+                    if isinstance(lv, tuple) and lv[0] == "bytes":
+                        self.run(s.body if lv[3] > 0 else s.orelse)
+                        continue
+                    if isinstance(lv, tuple) and lv[0] == "const":
+                        self.run(s.body if lv[1] else s.orelse)
+                        continue
                 raise AnalysisError(f"murmur2: undecidable branch {unparse(t)[:40]}")
             elif isinstance(s, ast.Return):
                 self.ret = self.ev(s.value)
@@ -205,6 +284,17 @@ def reference():
     return init, loop, fin
 
 
+def _piece(x):
+    """(byte term, shift) when x is a byte placed at a byte-aligned position below 32 bits."""
+    if isinstance(x, tuple) and x[0] == "byte":
+        return (x, 0)
+    if isinstance(x, tuple) and x[0] == "shl" and isinstance(x[1], tuple) and x[1][0] == "byte" and x[2][0] == "const" and x[2][1] in (8, 16, 24):
+        return (x[1], x[2][1])
+    if isinstance(x, tuple) and x[0] == "bytesum" and len(x[1]) == 1:
+        return x[1][0]
+    return None
+
+
 def _canon(t):
     """Flatten associative-commutative chains so that a+b+c compares equal irrespective of grouping."""
     t = simp(t)
@@ -222,6 +312,16 @@ def _canon(t):
             else:
                 items.append(_canon(x))
         flat(t)
+        # bytes placed at distinct byte positions combine identically under +, | and ^
+        pieces, rest = [], []
+        for x in items:
+            pc = _piece(x)
+            (pieces if pc is not None else rest).append(pc if pc is not None else x)
+        if pieces and len({sh for _b, sh in pieces}) == len(pieces) and (op == "xor" or not rest):
+            bs = ("bytesum", tuple(sorted(pieces, key=repr)))
+            if not rest:
+                return bs
+            return (op, tuple(sorted(rest + [bs], key=repr)))
         return (op, tuple(sorted(items, key=repr)))
     return (op, *[_canon(x) for x in t[1:]])
 
@@ -229,8 +329,9 @@ def _canon(t):
 def rule_murmur(ctx):
     R = "murmur2-dataflow"
     ctx.rep.rule(R, "symbolic 32-bit evaluation of murmur2's AST (initial value, one loop iteration over bytes 4i..4i+3, the tail for "
-                    "extra_bytes in {0,1,2,3}, the finaliser) equals, term for term modulo 2^32, the Java Utils.murmur2 (seed 0x9747b28c, "
-                    "m 0x5bd1e995, r 24, shifts 13/15, little-endian block, tail bytes 2,1,0 then one multiply)")
+                    "length % 4 in {0,1,2,3}, the finaliser) equals, term for term modulo 2^32, the Java Utils.murmur2 (seed 0x9747b28c, "
+                    "m 0x5bd1e995, r 24, shifts 13/15, little-endian block, tail bytes 2,1,0 then one multiply); byte access by index, by "
+                    "slice and through int.from_bytes is understood (a sign-extended 1..3 byte tail is not Java's)")
     fi = ctx.fn("aiokafka.partitioner.murmur2")
     body = [s for s in fi.node.body if not (isinstance(s, ast.Expr) and isinstance(s.value, ast.Constant))]
     loops = [s for s in body if isinstance(s, ast.For)]
@@ -238,51 +339,58 @@ def rule_murmur(ctx):
     li = body.index(loops[0])
     pre, loop, post = body[:li], loops[0], body[li + 1:]
     p = fi.params()[0]
-    ok_iter = isinstance(loop.iter, ast.Call) and unparse(loop.iter.func) == "range" and len(loop.iter.args) == 1 and isinstance(loop.target, ast.Name)
-    ctx.ob(R, fi, loop, ok_iter, "block loop is not `for i in range(n)`", text="loop-shape")
     ref_init, ref_loop, ref_fin = reference()
-    # phase A
-    se = SymExec({p: S("data")})
-    se.env["__len__"] = S("len")
     # `length = len(data)`
+    ln = None
     preA = []
     for s in pre:
-        if isinstance(s, ast.Assign) and isinstance(s.value, ast.Call) and unparse(s.value) == f"len({p})":
-            se.env[s.targets[0].id] = S("len")
+        if isinstance(s, ast.Assign) and isinstance(s.value, ast.Call) and unparse(s.value) == f"len({p})" and isinstance(s.targets[0], ast.Name):
+            ln = s.targets[0].id
         else:
             preA.append(s)
-    lenname = [k for k, v in se.env.items() if v == S("len") and k != "__len__"]
-    ctx.anchor(len(lenname) == 1, "length = len(data)")
-    ln = lenname[0]
-    # variables that only describe counts / indices are pinned to index terms
-    se.run([s for s in preA if not (isinstance(s, ast.Assign) and isinstance(s.value, ast.BinOp) and isinstance(s.value.op, ast.FloorDiv))])
+    ctx.anchor(ln is not None, "length = len(data)")
+    se = SymExec({p: S("data"), ln: S("len")}, len_name=ln)
+    # block count variable(s): X = length // 4 (also length >> 2)
+    cnt = [s for s in preA if isinstance(s, ast.Assign) and isinstance(s.targets[0], ast.Name) and unparse(s.value) in (f"{ln} // 4", f"{ln} >> 2")]
+    for s in cnt:
+        se.env[s.targets[0].id] = {"n4": 1}
+    se.run([s for s in preA if s not in cnt])
     hname = "h"
     ctx.anchor(hname in se.env, "hash accumulator `h`")
     got_init = _canon(se.env[hname])
     ctx.ob(R, fi, fi.node, got_init == _canon(ref_init), f"initial hash is {se.env[hname]}, Java: seed ^ length", text="init")
-    cnt = [s for s in pre if isinstance(s, ast.Assign) and isinstance(s.value, ast.BinOp) and isinstance(s.value.op, ast.FloorDiv)]
-    ok = len(cnt) == 1 and unparse(cnt[0].value) == f"{ln} // 4" and ok_iter and unparse(loop.iter.args[0]) == unparse(cnt[0].targets[0])
-    ctx.ob(R, fi, loop, ok, "block count is not length // 4", text="block-count")
-    # phase B
+    # loop header: for i in range(length // 4)  |  for i4 in range(0, 4 * (length // 4), 4)
+    it = loop.iter
+    ok_iter, loopvar = False, None
+    if isinstance(it, ast.Call) and unparse(it.func) == "range" and isinstance(loop.target, ast.Name):
+        if len(it.args) == 1:
+            n = se.lin(it.args[0]) if not (isinstance(it.args[0], ast.BinOp)) else None
+            if n is None and unparse(it.args[0]) in (f"{ln} // 4", f"{ln} >> 2"):
+                n = {"n4": 1}
+            ok_iter = n is not None and {k: v for k, v in n.items() if v} == {"n4": 1}
+            loopvar = {"i": 1}
+        elif len(it.args) == 3:
+            st, sp, step = se.lin(it.args[0]), se.lin(it.args[1]), se.lin(it.args[2])
+            ok_iter = st == {"c": 0} and step == {"c": 4} and sp is not None and {k: v for k, v in sp.items() if v} == {"tail": 1}
+            loopvar = {"i": 4}
+    ctx.ob(R, fi, loop, ok_iter, f"block loop `for {unparse(loop.target)} in {unparse(it)}` does not visit the length // 4 whole blocks", text="block-count")
+    # phase B: one iteration
     envB = dict(se.env)
     envB[hname] = S("h")
-    envB[loop.target.id] = {"i": 1}
-    sb = SymExec(envB)
+    envB[loop.target.id] = loopvar or {"i": 1}
+    sb = SymExec(envB, len_name=ln)
     sb.run(loop.body)
     got_loop = _canon(sb.env[hname])
     ctx.ob(R, fi, loop, got_loop == _canon(ref_loop), "one block iteration differs from Java's `k*=m; k^=k>>>24; k*=m; h*=m; h^=k` over the little-endian block", text="block")
-    # phase C
-    eb = [s for s in post if isinstance(s, ast.Assign) and unparse(s.value) == f"{ln} % 4"]
-    ctx.anchor(len(eb) == 1, "extra_bytes = length % 4")
-    ebn = eb[0].targets[0].id
+    # phase C: tail + finaliser for each length % 4
     for e in range(4):
         envC = dict(se.env)
         envC[hname] = S("h")
-        sc = SymExec(envC, pinned={ebn: C(e)})
+        sc = SymExec(envC, tail_len=e, len_name=ln)
         sc.run(post)
         ctx.anchor(sc.ret is not None, "murmur2 returns")
         ok = _canon(sc.ret) == _canon(ref_fin[e])
-        ctx.rep.ob(R, ctx.site(fi, fi.node), f"{fi.qualname}|tail-{e}", ok, f"tail + finaliser for length % 4 == {e} differs from Java's (bytes {list(range(e))} mixed in, multiply iff >= 1, then >>>13, *m, >>>15)")
+        ctx.rep.ob(R, ctx.site(fi, fi.node), f"{fi.qualname}|tail-{e}", ok, f"tail + finaliser for length % 4 == {e} differs from Java's (bytes {list(range(e))} mixed in unsigned, multiply iff >= 1, then >>>13, *m, >>>15)")
 
 
 def rule_width(ctx):
